@@ -18,18 +18,19 @@ type ReadRec struct {
 }
 
 type Tape struct {
-	buf      []byte // bytes still to deliver
-	Supply   func() (uint32, bool) // called when buf is empty; false => tape exhausted
-	Chunk    []int  // delivery sizes cycle (0/empty => deliver everything requested)
-	chunkPos int
-	FailAt   int // 1-based index of the Read call that fails (0 = never)
-	FailGot  int // bytes delivered by the failing call before the error
-	Reads    int
-	Bytes    int
-	Words    []uint32 // every word handed out, in order
-	Log      []ReadRec
-	KeepLog  bool
-	Exhausted bool
+	buf         []byte                // bytes still to deliver
+	Supply      func() (uint32, bool) // called when buf is empty; false => tape exhausted
+	Chunk       []int                 // delivery sizes cycle (0/empty => deliver everything requested)
+	chunkPos    int
+	chunkFrom   int // chunking applies from this 1-based Read call on (0/1: from the start)
+	FailAt      int // 1-based index of the Read call that fails (0 = never)
+	FailGot     int // bytes delivered by the failing call before the error
+	Reads       int
+	Bytes       int
+	Words       []uint32 // every word handed out, in order
+	Log         []ReadRec
+	KeepLog     bool
+	Exhausted   bool
 	Unannounced int // words supplied by the fallback (no draw announced)
 }
 
@@ -67,7 +68,7 @@ func (t *Tape) Read(p []byte) (int, error) {
 		return n, ErrTapeFault
 	}
 	want := len(p)
-	if len(t.Chunk) > 0 {
+	if len(t.Chunk) > 0 && t.Reads >= t.chunkFrom {
 		c := t.Chunk[t.chunkPos%len(t.Chunk)]
 		t.chunkPos++
 		if c > 0 && c < want {
